@@ -323,9 +323,222 @@ def convert_steps(rows):
             st["events"] += 1
             st["by_event"][x["ev"]] = st["by_event"].get(x["ev"], 0) + 1
     if step:
-        ths = sorted({r["t"] for r in step if "t" in r})
-        step[0] = dict(step[0], allkeys=sorted(KEYDOC), threads=ths, pool=max(r["cap"] for r in step if r["a"] == "Reset") + len(ths) + 2)
+        pass
     return step, plain, st
+
+
+OWN_TESTS = ("^(TestLRURevisionCacheEviction|TestLRURevisionCacheEvictionMemoryBased|TestBackingStore|TestBackingStoreCV|TestBackingStoreMemoryCalculation|"
+             "TestSingleLoad|TestConcurrentLoad|TestConcurrentLoadByCVAndRevOnCache|TestGetActive|TestRevCacheOperationsCV|TestLoaderMismatchInCV|"
+             "TestConcurrentPutAndGetOnRevCache|TestConcurrentPutAndRemoveRace|TestConcurrentGetAndRemoveRace|TestConcurrentUpsertAndRemoveRace|"
+             "TestRemoveDuringNumberBasedEviction|TestMemoryEvictionDuringConcurrentPuts|TestMemoryBasedEvictionRevisionCacheOnly|"
+             "TestCombinedNumberAndMemoryEviction|TestMemoryStatTracksUsageWithUnlimitedCapacity|TestUpsertReplacesItemMemoryBytes|"
+             "TestRevisionCacheRemove|TestRevCacheCapacityStat|TestBasicOperationsOnCacheWithMemoryStat|TestImmediateRevCacheItemBasedEviction|"
+             "TestImmediateRevCacheMemoryBasedEviction|TestShardedMemoryEviction|TestLoadActiveDocFromBucketRevCacheChurn|"
+             "TestLoadRequestedRevFromBucketHighChurn|TestPutRevHighRevCacheChurn|TestRevCacheOnDemandMemoryEviction|TestResetRevCache)$")
+OWN_MAX_KEYS, OWN_MAX_THREADS, OWN_POOL = 112, 32, 64
+
+
+def convert_own(evs):
+    """H3 events of the repository's own tests -> (lines for pass P [every cache instance: recorded scalars],
+    lines for pass C [instances the model can replay], stats).  Structural rules for pass C (not outcomes):
+    every event lies inside an API call (Call..Ret of its goroutine, memory eviction after Ret included); at most OWN_MAX_KEYS keys,
+    OWN_MAX_THREADS concurrent calls, min(capacity, keys) + threads + 2 <= OWN_POOL values."""
+    evs = sorted(evs, key=lambda e: e["n"])
+    owner, inst = {}, {}
+    for e in evs:
+        o = e["obj"]
+        if o.startswith("*db.LRURevisionCache"):
+            x = inst.setdefault(o, {"evs": [], "first": e["n"], "last": e["n"]})
+            x["evs"].append(e)
+            x["last"] = e["n"]
+            if e["ev"] == "UpsertToCache" or (e["ev"] == "GetValue" and not e["hit"]):
+                owner[e["vid"]] = o
+        elif o == "revCacheValue" and e.get("vid") in owner:
+            x = inst[owner[e["vid"]]]
+            x["evs"].append(e)
+            x["last"] = e["n"]
+    plines, clines = [], []
+    st = {"instances": len(inst), "events": 0, "replayed_instances": 0, "replayed_events": 0, "scalar_only": {}}
+    st_users, mc_users = {}, {}                      # which cache instances use an item gauge / a memory controller (Call events carry their addresses)
+    for o, x in inst.items():
+        c0 = next((e for e in x["evs"] if e["ev"] == "Call"), None)
+        if c0:
+            st_users.setdefault(c0["st"], set()).add(o)
+            mc_users.setdefault(c0["mc"], set()).add(o)
+            x["st"], x["mc"] = c0["st"], c0["mc"]
+    for o, x in inst.items():
+        es = x["evs"]
+        overl = len(st_users.get(x.get("st"), {o})) > 1                                   # the item gauge is shared with another cache (shards, or a test reusing its stats)
+        capv = next((e["cap"] for e in es if e["ev"] == "Call"), None)
+        mb = next((e["maxBytes"] for e in es if e["ev"] == "Call"), 0)
+        if capv is None:
+            capv = 1 << 30
+        if not any(e["ev"] == "MeLock" for e in es):
+            mb = 0                                   # no orchestrator eviction in this instance (bare LRURevisionCache, or never over the limit)
+        # ---- calls
+        why = None
+        open_call, calls, gthread, free = {}, [], {}, ["t%d" % i for i in range(OWN_MAX_THREADS, 0, -1)]
+        keys, store, sizes = {}, {}, set()
+        body = []                                    # (kind, payload)
+        vids, nv = {}, 0
+        last_of = {}
+        for i, e in enumerate(es):                   # extent of a call: up to the last memory-eviction event of its goroutine before that goroutine's next Call
+            if e["ev"] in ("MeLock", "MeEvict", "MeFin"):
+                last_of[e["g"]] = i
+            if e["ev"] == "Call":
+                last_of.pop(e["g"], None)
+        ext = {}
+        nxt = {}
+        for i in range(len(es) - 1, -1, -1):
+            e = es[i]
+            g = e.get("g")
+            if e["ev"] in ("MeLock", "MeEvict", "MeFin") and g not in nxt:
+                nxt[g] = i
+            if e["ev"] == "Ret":
+                ext[i] = nxt.get(g, i)
+            if e["ev"] == "Call":
+                nxt.pop(g, None)
+        def key_of(e):
+            kk = (e["doc"], e["ver"])
+            if kk not in keys:
+                keys[kk] = "k%d" % (len(keys) + 1)
+            return keys[kk]
+        cur = {}                                     # g -> call record
+        end_at = {}                                  # index -> [call]
+        for i, e in enumerate(es):
+            ev, g = e["ev"], e.get("g")
+            if ev == "Call":
+                if not free:
+                    why = why or "more than %d concurrent calls" % OWN_MAX_THREADS
+                    free.append("t0")
+                c = {"t": free.pop(), "op": e["op"], "k": None, "c": "nil", "f": "ok", "n": 0, "begin": len(body)}
+                if e["op"] != "GetActive":
+                    c["k"] = key_of(e)
+                cur[g] = c
+                body.append(("B", c))
+                continue
+            if ev == "Ret":
+                c = cur.get(g)
+                if c is not None:
+                    end_at.setdefault(ext[i], []).append((g, c))
+            else:
+                c = cur.get(g)
+                if c is None:
+                    why = why or "events outside any API call (the test calls internal functions of the cache directly)"
+                    c = {"t": "t1", "k": "k1"}
+                else:
+                    c["n"] += 1
+                if ev == "CapEvict":
+                    pass
+                else:
+                    if ev == "UpsertToCache" or (ev == "GetValue" and not e["hit"]):
+                        nv += 1
+                        vids[e["vid"]] = nv
+                    if ev == "GetValue" and c.get("k") is None:
+                        c["k"] = key_of(e)
+                    if ev == "SBytes":
+                        c["c"] = "b%d" % e["bytes"]
+                        sizes.add(e["bytes"])
+                    if ev == "Load" and not e["hit"]:
+                        if e["err"]:
+                            c["f"] = "fd"
+                        else:
+                            sizes.add(e["bytes"])
+                            tok = "b%d" % e["bytes"]
+                            if store.get(c["k"]) not in (None, tok):
+                                body.insert(c["begin"], ("U", {"a": "StoreUpdate", "d": c["k"], "c": tok}))
+                                for cc in cur.values():
+                                    if cc.get("begin", -1) >= c["begin"] and cc is not c:
+                                        cc["begin"] += 1
+                            store.setdefault(c["k"], tok)
+                            if store[c["k"]] != tok:
+                                store[c["k"]] = tok
+                    body.append(("S", step_line(e, c["t"], c.get("k"), vids.get(e.get("vid"), 0))))
+                    st["events"] += 1
+            for g2, c2 in end_at.pop(i, []):
+                body.append(("E", c2))
+                free.append(c2["t"])
+                if cur.get(g2) is c2:
+                    del cur[g2]
+        for g2, c2 in list(cur.items()):             # calls still open at the end of the instance
+            body.append(("E", c2))
+        nthreads = len({c["t"] for k_, c in body if k_ == "B"})
+        if len(keys) > OWN_MAX_KEYS:
+            why = why or "more than %d keys" % OWN_MAX_KEYS
+        if min(capv, max(len(keys), 1)) + nthreads + 2 > OWN_POOL:
+            why = why or "more live values than the id pool"
+        reset = {"a": "Reset", "beh": o, "mode": "step", "cap": min(capv, 1 << 30), "maxBytes": mb, "cmpItems": not overl,
+                 "store": {"k%d" % i: "missing" for i in range(1, OWN_MAX_KEYS + 1)},
+                 "csz": [["b%d" % b, b] for b in sorted(sizes)] or [["b0", 0]]}
+        for kname, tok in store.items():
+            reset["store"][kname] = tok
+        if len(mc_users.get(x.get("mc"), {o})) > 1:
+            why = why or "memory controller shared with another cache"
+        plines.append(reset)
+        plines += [u for kind, u in body if kind == "S"]
+        if why:
+            st["scalar_only"][why] = st["scalar_only"].get(why, 0) + 1
+            continue
+        if any(kind == "U" for kind, u in body):
+            st["scalar_only"]["bucket content of a key changes during the test"] = st["scalar_only"].get("bucket content of a key changes during the test", 0) + 1
+            continue
+        st["replayed_instances"] += 1
+        clines.append(reset)
+        anykey = next(iter(keys.values()), "k1")
+        for kind, u in body:
+            if kind == "S":
+                clines.append(u)
+                st["replayed_events"] += 1
+            elif kind == "B":
+                if u["n"] == 0 and u["op"] != "GetActive":
+                    u["skip"] = True                 # rejected before touching the cache (empty doc id, invalid revision)
+                    continue
+                clines.append({"a": "Begin", "t": u["t"], "op": u["op"], "k": u["k"] or anykey, "c": u["c"],
+                               "f": "fd" if (u["op"] == "GetActive" and u["n"] == 0) else u["f"]})
+            elif kind == "E" and not u.get("skip"):
+                clines.append({"a": "End", "t": u["t"], "op": u["op"], "k": u["k"] or anykey, "c": "nil", "err": False, "gd": 0, "gr": 0, "nf": True})
+    return plines, clines, st
+
+
+def existing_tests(ctx):
+    """the repository's own revision cache tests, unmodified, with -tags verif: hook H3 -> $VERIF_HOOK_TRACE -> the same specification"""
+    import subprocess
+    hook = os.path.join(ctx.scratch, "c16-own-hook.ndjson")
+    e = go_env()
+    e["VERIF_HOOK_TRACE"] = hook
+    p = subprocess.run(["go", "test", "-tags", "verif", "-vet=off", "-count=1", "-timeout", "30m", "-run", OWN_TESTS, "./db"],
+                       cwd=REPO, env=e, stdout=subprocess.PIPE, stderr=subprocess.STDOUT, text=True, errors="replace")
+    ctx.cov["go_runs"].append({"pkg": "db", "run": "own revision cache tests with hooks on", "rc": p.returncode})
+    if not os.path.exists(hook):
+        ctx.notes.append("own-tests run produced no hook trace (rc=%d)" % p.returncode)
+        return
+    plines, clines, st = convert_own(read_ndjson(hook))
+    st["go_test_rc"] = p.returncode
+    ctx.cov["own_tests"] = st
+    log("  own revision cache tests with hooks on: rc=%d, %d cache instances, %d events; replayed by the model: %d instances, %d events" % (
+        p.returncode, st["instances"], st["events"], st["replayed_instances"], st["replayed_events"]))
+    ctx.cov["evaluations"] += st["instances"]
+    fp = os.path.join(ctx.scratch, "c16-own-p.ndjson")
+    write_ndjson(fp, plines)
+    vp = validate(ctx, SPEC, "Trace_RevCacheH", "Trace_RevCacheH_own_P.cfg", fp, timeout=3600)
+    if vp.inv:
+        idx, reset, part = _beh_at(plines, vp.line)
+        report_violation(ctx, "own-tests:%s" % vp.inv, "repository test run: revision cache breaks %s at recorded step %s (cache instance %s)" % (vp.inv, vp.line, idx),
+                         {"invariant": vp.inv, "steps": plines[max(0, (vp.line or 1) - 10):(vp.line or 1)], "state": (vp.state or {}).get("_txt")})
+        return
+    if not vp.accepted:
+        raise Inconclusive("own tests: pass P stopped at line %s of %s\n%s" % (vp.line, vp.total, vp.out[-1500:]))
+    if clines:
+        fc = os.path.join(ctx.scratch, "c16-own-c.ndjson")
+        write_ndjson(fc, clines)
+        vc = validate(ctx, SPEC, "Trace_RevCacheH", "Trace_RevCacheH_own_C.cfg", fc, timeout=3600)
+        if vc.inv or not vc.accepted:
+            ctx.cov["nonconformance"] += 1
+            idx, reset, part = _beh_at(clines, (vc.line or 1) + 1)
+            ctx.notes.append("own tests: step-level pass C rejected at line %s (%s): instance %s, line %s" % (
+                vc.line, vc.inv, idx, clines[vc.line - 1] if vc.line and vc.line <= len(clines) else None))
+            return
+    ctx.cov["traces_validated_against_impl"] += st["instances"]
 
 
 def conc(ctx, tr):
